@@ -47,6 +47,11 @@ type creq struct {
 	// schedule-exploration scenarios: id seen by the peer thread
 	seen   bool
 	wireID uint16
+	// Payload of a publish request; CompWrong: the callback got somebody else's message
+	Payload   string
+	CompWrong string
+	// Chain: kind of a request the completion callback issues itself
+	Chain string
 }
 
 // NewClientWorld resets globals and opens the listener.
@@ -121,6 +126,21 @@ func (w *ClientWorld) onComplete(r *creq) service.OnCompleteFunc {
 		if err != nil {
 			r.CompErr = err.Error()
 		}
+		// the callback must be handed the request it belongs to and that request's acknowledgement
+		if pm, ok := msg.(*message.PublishMessage); ok && r.Payload != "" {
+			if string(pm.Payload()) != r.Payload {
+				r.CompWrong = fmt.Sprintf("was handed the message with payload %q instead of its own (%q)", pm.Payload(), r.Payload)
+			}
+			if ack != nil && ack.PacketID() != pm.PacketID() {
+				r.CompWrong = fmt.Sprintf("was handed message id %d with acknowledgement id %d", pm.PacketID(), ack.PacketID())
+			}
+		}
+		if r.Chain != "" {
+			// the application sends its next request from inside the callback
+			next := r.Chain
+			r.Chain = ""
+			w.Issue(next, []string{"t"}, nil, fmt.Sprintf("chained-after-%d", r.Idx))
+		}
 		return nil
 	}
 }
@@ -128,6 +148,9 @@ func (w *ClientWorld) onComplete(r *creq) service.OnCompleteFunc {
 // Issue performs a client API call; kind: pub0 pub1 pub2 sub unsub ping.
 func (w *ClientWorld) Issue(kind string, filters []string, qoss []byte, payload string) (*creq, error) {
 	r := &creq{Idx: len(w.Requests), Kind: kind, Filters: filters, QoSs: qoss, SentAt: w.Srv.SentAck}
+	if len(kind) == 4 && kind[:3] == "pub" {
+		r.Payload = payload
+	}
 	w.Requests = append(w.Requests, r)
 	var err error
 	switch kind {
